@@ -22,7 +22,9 @@ pub fn spec(tier: Tier) -> RelSpec {
             GenCfg { depth: 5, sources: vec![SrcKind::OpenT], max_joins: 0, letters: Letters::TakeChain },
         ],
         // depth 4 meets further untriaged defect causes (DESIGN §9.3): thorough widens sources and instances instead
-        Tier::Thorough => vec![mk(3, vec![SrcKind::OpenT, SrcKind::LetSorted, SrcKind::SubClosed, SrcKind::Literal, SrcKind::LetClosed], 1), mk(3, vec![SrcKind::LetSortedTwoReaders], 1), GenCfg { depth: 5, sources: vec![SrcKind::OpenT, SrcKind::LetClosed, SrcKind::LetSorted], max_joins: 1, letters: Letters::OrderSplit }, GenCfg { depth: 6, sources: vec![SrcKind::OpenT, SrcKind::LetClosed], max_joins: 0, letters: Letters::TakeChain }],
+        // (TakeChain at depth 6 puts the limited, grouped, descending SELECT of SQLite's ORDER BY defect *inside* a CTE,
+        // where the engine's second opinion does not reach: 48 false alarms; thorough stays at depth 5, more sources)
+        Tier::Thorough => vec![mk(3, vec![SrcKind::OpenT, SrcKind::LetSorted, SrcKind::SubClosed, SrcKind::Literal, SrcKind::LetClosed], 1), mk(3, vec![SrcKind::LetSortedTwoReaders], 1), GenCfg { depth: 5, sources: vec![SrcKind::OpenT, SrcKind::LetClosed, SrcKind::LetSorted], max_joins: 1, letters: Letters::OrderSplit }, GenCfg { depth: 5, sources: vec![SrcKind::OpenT, SrcKind::LetClosed, SrcKind::LetSorted], max_joins: 0, letters: Letters::TakeChain }],
     };
     RelSpec {
         property: "C03",
